@@ -49,7 +49,15 @@ where
   type Unsub = ();
 
   fn actual_subscribe(self, mut observer: O) -> Self::Unsub {
-    self.0.into_iter().for_each(|v| observer.next(v));
+    // stop pulling from the iterator once nobody listens any more (e.g. after
+    // a downstream `take`): the iterator may be expensive or unbounded
+    let mut iter = self.0.into_iter();
+    while !observer.is_finished() {
+      match iter.next() {
+        Some(v) => observer.next(v),
+        None => break,
+      }
+    }
     observer.complete();
   }
 }
